@@ -1,5 +1,5 @@
 (* Test-case dispatch for model R (run-time model). Opcodes 100-199. *)
-From AJ Require Import Common.Util Extract.Codec Run.RModel Run.RMon Run.RProps1 Run.RProps2 Run.RProps3 Run.RWin Run.RProps4 Run.RProps5 Run.RAdm Run.RSchedDef Run.RSchedF.
+From AJ Require Import Common.Util Extract.Codec Run.RModel Run.RMon Run.RProps1 Run.RProps2 Run.RProps3 Run.RWin Run.RProps4 Run.RProps5 Run.RAdm Run.RSchedDef Run.RSchedF Run.RSolveF.
 
 Definition rd_optN : reader (option N) := rd_opt rd_N.
 
@@ -110,9 +110,10 @@ Definition run_rcase (op : N) : reader (list N) :=
                                  | None => true
                                  end) (all_ids c))
            ++ lS ++ lE)
-  | 107%N => (* schedule with forever jobs: the tables come from the harness; wf, plainF, equations, no tie, slack *)
-      c <- rd_cfg ;; lS <- rd_list rd_N ;; lE <- rd_list rd_N ;;
+  | 107%N => (* schedule with forever jobs: wf, plainF, solver's own check, no tie, slack, S table, E table *)
+      c <- rd_cfg ;;
+      let '(lS, lE) := solveF c in
       ret (en_bool (wf c) ++ en_bool (plainF c) ++ en_bool (is_scheduleFb c lS lE)
-           ++ en_bool (no_tieFb c lS lE) ++ en_bool (slackFb c lS lE))
+           ++ en_bool (no_tieFb c lS lE) ++ en_bool (slackFb c lS lE) ++ lS ++ lE)
   | _ => fun _ => None
   end.
